@@ -56,7 +56,7 @@ def main():
             for seed in seeds:
                 t0 = time.time()
                 r = sh(f'cd /verif && timeout 1800 /venv/bin/python -m checks.run {p} --tier {tier}',
-                       env=dict(env, VERIF_REPO=wt, VERIF_SEED=str(seed), PYTHONHASHSEED='0'))
+                       env=dict(env, VERIF_REPO=wt, VERIF_SEED=str(seed), PYTHONHASHSEED='0', **({} if opts.get('full') else {'VERIF_FAILFAST': '1'})))
                 lines = [l for l in r.stdout.splitlines() if l.startswith('VIOLATION') or l.startswith('  signature') or l.startswith('  what') or l.startswith('ERROR') or 'Traceback' in l]
                 verdict = 'DETECTED' if r.returncode == 1 else 'missed' if r.returncode == 0 else f'HARNESS-ERROR({r.returncode})'
                 print(f'{p} seed={seed} {verdict} in {time.time() - t0:.0f}s')
